@@ -107,3 +107,36 @@ MUTANTS = [
       [(CORE, "    def add_sensitivity(self, ds: Any):\n        \"\"\" Add a new term to internal sensitivity \"\"\"\n        try:\n            if ds is None:\n                return\n            if self.sensitivity is None:\n                self.sensitivity = copy.deepcopy(ds)",
         "    def add_sensitivity(self, term: Any):\n        \"\"\" Add a new term to internal sensitivity \"\"\"\n        ds = term\n        try:\n            if term is None:\n                return\n            if self.sensitivity is None:\n                self.sensitivity = copy.deepcopy(term)")]),
 ]
+
+MUTANTS += [
+    # ------------------------------------------------------------------------------------------ C03 caches
+    B("overhang-smax-lazy", ["C03"], ["R-LATCH"],
+      [(FILT, "        xprint = x.copy()\n        self.smax = x.copy()\n", "        xprint = x.copy()\n        if self.smax is None:\n            self.smax = x.copy()\n")],
+      "OverhangFilter"),
+    B("linsolve-u-conditional", ["C03"], ["R-FRESH"],
+      [(LINA, "        self.u = self.solver.solve(rhs, x0=self.u)\n\n        return self.u\n",
+        "        u = self.solver.solve(rhs, x0=self.u)\n        if rhs.ndim == 1:\n            self.u = u\n\n        return u\n")], "LinSolve"),
+    B("linsolve-update-only-when-changed", ["C03"], ["R-UPDATE-BEFORE-SOLVE"],
+      [(LINA, "        # Update solver with new matrix\n        self.solver.update(mat)\n",
+        "        # Update solver with new matrix\n        if self.u is None:\n            self.solver.update(mat)\n")], "LinSolve._response"),
+    B("eigensolve-flag-reset", ["C03"], ["R-UPDATE-BEFORE-SOLVE"],
+      [(LINA, "        if self.do_solve:\n            self.Ainv.update(mat_shifted)\n", "        if self.do_solve:\n            self.Ainv.update(mat_shifted)\n            self.do_solve = False\n")],
+      "EigenSolve._sparse_eigs"),
+    B("eigensolve-adjoint-flag-reset", ["C03"], ["R-UPDATE-BEFORE-SOLVE"],
+      [(LINA, "            vp = self.solvers[i].solve(r, trans='T')\n", "            vp = self.solvers[i].solve(r, trans='T')\n            self.adjoint_solvers_need_update = False\n")],
+      "EigenSolve._sparse_eigvec_sens"),
+    B("aggregation-select-only-with-set", ["C03"], ["R-FRESH"],
+      [(AGGR, "        if self.active_set is not None:\n            self.select = self.active_set(x)\n        else:\n            self.select = Ellipsis\n",
+        "        if x.size > 1:\n            self.select = self.active_set(x) if self.active_set is not None else Ellipsis\n")], "Aggregation"),
+    B("lda-latch-reintroduced", ["C03"], ["R-LATCH-LDA"],
+      [(SOLV, "        if self._detect_symmetric:\n            self.symmetric = matrix_is_symmetric(A)\n", "        if self.symmetric is None:\n            self.symmetric = matrix_is_symmetric(A)\n")],
+      "LDAWrapper"),
+    B("syseq-inner-matrix-once", ["C03"], ["R-UPDATE-BEFORE-SOLVE"],
+      [(LINA, "        self.module_LinSolve.sig_in[0].state = Aff\n", "        if self.module_LinSolve.sig_in[0].state is None:\n            self.module_LinSolve.sig_in[0].state = Aff\n")],
+      "SystemOfEquations._response"),
+    T("twin-linsolve-local-then-attr", ["C03"],
+      [(LINA, "        self.u = self.solver.solve(rhs, x0=self.u)\n\n        return self.u\n", "        sol = self.solver.solve(rhs, x0=self.u)\n        self.u = sol\n\n        return sol\n")]),
+    T("twin-overhang-params-in-prepare-style", ["C03"],
+      [(FILT, "        if self.q is None:  # Set parameters according to data type of x\n            self.set_parameters(x.dtype)\n",
+        "        if self.q is None or self.shift is None:  # Set parameters according to data type of x\n            self.set_parameters(x.dtype)\n")]),
+]
